@@ -1,6 +1,7 @@
 package main
 
 import (
+	"bytes"
 	"fmt"
 	"math/rand"
 	"strconv"
@@ -66,6 +67,12 @@ type plan struct {
 	// HalfClose: the client shuts down its sending direction right after the
 	// last byte it has to send and goes on reading its responses.
 	HalfClose bool
+	// Trunc: the last request (index Last) is an upload the client does not
+	// finish: it stops inside the body and shuts down its sending direction.
+	Trunc     bool
+	TruncCut  int // bytes of the last request actually sent
+	TruncFull int // its full length
+	TruncReg  string
 	Reqs      []*reqSpec
 	Ress      []*resSpec
 	ReqBytes  [][]byte
@@ -467,6 +474,20 @@ func generate(rng *rand.Rand, c connCase, thorough bool) *plan {
 			s.Headers = append(s.Headers, h1x.Header{Name: "Content-Range", Value: v})
 			s.Raw = append(s.Raw, renderHeader(rng, "Content-Range", v))
 		}
+		if c.Idx%25 == 7 && i == 0 {
+			// a fixed share of the connections starts with a response whose head
+			// is 0.2-1.2 MB (many large header fields)
+			for k, nk := 0, 40+rng.Intn(60); k < nk; k++ {
+				vb := make([]byte, 4000+rng.Intn(8000))
+				for j := range vb {
+					vb[j] = unreserved[rng.Intn(len(unreserved))]
+				}
+				name := []string{"Set-Cookie", "X-Big-Res"}[k%2]
+				v := "k" + strconv.Itoa(k) + "=" + string(vb)
+				s.Headers = append(s.Headers, h1x.Header{Name: name, Value: v})
+				s.Raw = append(s.Raw, name+": "+v)
+			}
+		}
 		if q.Gzip && rng.Intn(2) == 0 {
 			s.Headers = append(s.Headers, h1x.Header{Name: "Content-Encoding", Value: "gzip"})
 			s.Raw = append(s.Raw, renderHeader(rng, "Content-Encoding", "gzip"))
@@ -572,8 +593,40 @@ func generate(rng *rand.Rand, c connCase, thorough bool) *plan {
 		p.Ress = append(p.Ress, s)
 		p.Last = i
 	}
+	if c.Idx%6 == 3 && !p.Long {
+		// a fixed share of the connections ends with an unfinished upload
+		keep := p.Last // the exchanges before the closing one (all non-closing)
+		p.Reqs, p.Ress = p.Reqs[:keep], p.Ress[:keep]
+		q := &reqSpec{I: keep, Authority: auth, Proto: "HTTP/1.1", Method: []string{"POST", "PUT"}[rng.Intn(2)], Path: "/r" + strconv.Itoa(keep) + "/upload", Abs: rng.Intn(2) == 0}
+		q.HostLine = "Host: " + auth
+		q.Body = vh.Stamp(stampID(c.Idx, keep, 0), []int{2, 300, 5000, 40000, 100000}[rng.Intn(5)])
+		q.Framing = []string{"chunked", "chunked", "cl"}[rng.Intn(3)]
+		if q.Framing == "chunked" {
+			q.Chunks = chunking(rng, len(q.Body))
+		}
+		s := &resSpec{Proto: "HTTP/1.1", Status: 200, Reason: "OK", Framing: "cl", Body: vh.Stamp(stampID(c.Idx, keep, 1), 9), HeadCL: -1}
+		p.Reqs, p.Ress = append(p.Reqs, q), append(p.Ress, s)
+		p.Last, p.Trunc, p.HalfClose = keep, true, true
+	}
 	for _, q := range p.Reqs {
 		b := renderRequest(q, rng)
+		if p.Trunc && q.I == p.Last {
+			p.TruncFull = len(b)
+			head := bytes.Index(b, []byte("\r\n\r\n")) + 4
+			// stop strictly inside the body framing: after the head, before the end
+			switch rng.Intn(4) {
+			case 0:
+				p.TruncCut, p.TruncReg = head, "right-after-head"
+			case 1:
+				p.TruncCut, p.TruncReg = len(b)-1-rng.Intn(min(5, len(b)-head)), "just-before-end"
+			default:
+				p.TruncCut, p.TruncReg = head+rng.Intn(len(b)-head), "inside-body"
+			}
+			if p.TruncCut >= len(b) {
+				p.TruncCut = len(b) - 1
+			}
+			b = b[:p.TruncCut]
+		}
 		p.ReqBytes = append(p.ReqBytes, b)
 		p.Cuts = append(p.Cuts, cuts(rng, len(b)))
 	}
